@@ -87,7 +87,8 @@ let () =
          pr line;
          let b = { b_ret = z_of_string ret; b_acts = List.map action_of acts } in
          (match step !shm !fixed (nat_of_int !depth) (OBeh (kind_of k, b)) !w with Ok (w', _) -> w := w' | Fail _ -> ())
-       | ["op"; "conn"; s] -> exec line (OConn (nat_of_int (int_of_string s))) (skip_or num)
+       | ["op"; "conn"; s] -> exec line (OConn (nat_of_int (int_of_string s), true)) (skip_or num)
+       | ["op"; "connx"; s] -> exec line (OConn (nat_of_int (int_of_string s), false)) (skip_or num)
        | ["op"; "req"; s] ->
          exec line (OReq (nat_of_int (int_of_string s), next_result here = "r ok"))
            (skip_or (fun z -> if string_of_z z = "1" then "r ok" else "r fail"))
